@@ -84,11 +84,13 @@ CHECKS = {
             "closed afterwards.",
             "deterministic simulation: exhaustive per-attempt fault sequences on a simulated datagram transport, virtual-time arithmetic oracle"),
     "C14": ("exploration", "6 C14",
-            "2-6 operations started together on one shared client or on 2-3 clients on one loop, v2c and v3 authPriv (concurrent "
-            "discovery); the schedule is the latency of every response datagram: all k! answer orders for groups of "
-            "single-exchange operations (Lehmer-coded run index), seeded orders for groups with walks, plus loss/dup/late "
-            "replies; oracle: each outcome equals its solo twin run, agents saw only their own client's credentials, no "
-            "request rejected.",
+            "2-6 operations (twelve kinds, overlapping walks/tables) started together on one shared client or on 2-3 clients on "
+            "one loop, v2c and v3 authPriv (concurrent discovery); the schedule is the latency of every response datagram: all "
+            "k! answer orders for groups of single-exchange operations (Lehmer-coded run index), seeded orders for groups with "
+            "walks, plus loss/dup/late replies; wall clock tied or advancing on every reading (different ids in flight); one "
+            "operation may be abandoned by its caller (wait_for) mid-flight; oracle: each outcome equals its solo twin run, "
+            "agents saw only their own client's credentials, no request rejected, client configuration unchanged and carried "
+            "by every sender call.",
             "deterministic simulation: schedule exploration through per-datagram delivery times (complete permutations for small groups), solo-twin oracle"),
     "C15": ("exploration", "6 C15",
             "All eleven wrapper operations over databases holding every value type; the wrapper call and the raw call see "
